@@ -94,7 +94,10 @@ func NewSymbols(seed int64) *Symbols {
 	for i, v := range s.ints {
 		s.intIdx[v] = i
 	}
-	s.floats = []float64{0, 1.5, -33.8688197, 151.2092955, 89.9999999, -179.9999999, 0.0000001, 52.5170365, 13.3888599}
+	// f1..f8 ordinary coordinates; f9..f14 around zero and one: strictly between -1 and 0 / 0 and 1 with seven decimals,
+	// the smallest negative step, exactly -1 and +1
+	s.floats = []float64{0, 1.5, -33.8688197, 151.2092955, 89.9999999, -179.9999999, 0.0000001, 52.5170365, 13.3888599,
+		-0.1246254, 0.9999999, -0.0000001, -1, 1, -0.9999999}
 	s.times = []time.Time{
 		{},
 		time.Date(2012, 9, 12, 9, 30, 3, 0, time.UTC),
@@ -241,14 +244,27 @@ func (s *Symbols) Lexical(leaf string, variant int) (string, error) {
 
 func floatText(f float64, variant int) string {
 	txt := strconv.FormatFloat(f, 'f', -1, 64)
-	switch variant % 3 {
+	switch variant % 4 {
 	case 1: // trailing zeros are the same number
 		if strings.Contains(txt, ".") {
 			return txt + "00"
 		}
 		return txt + ".0"
+	case 2: // the fixed-point spelling with exactly seven decimals (what the OSM API and Overpass print)
+		if p := strconv.FormatFloat(f, 'f', 7, 64); parsesTo(p, f) {
+			return p
+		}
+	case 3: // zero may carry a sign
+		if f == 0 {
+			return "-0.0"
+		}
 	}
 	return txt
+}
+
+func parsesTo(txt string, f float64) bool {
+	g, err := strconv.ParseFloat(txt, 64)
+	return err == nil && g == f
 }
 
 func timeText(t time.Time, variant int) string {
